@@ -184,6 +184,10 @@ func parseTupleToUserset(graphBuilder *AuthorizationModelGraphBuilder, parentNod
 		directlyRelated = relationMetadata.GetDirectlyRelatedUserTypes()
 	}
 
+	// parent types of the tupleset that already have their edge for THIS tuple to userset: the same tuple to
+	// userset written twice under one operator (x from parent but not x from parent) gets its own edges
+	seenTuplesetTypes := make(map[string]struct{}, len(directlyRelated))
+
 	for _, relatedType := range directlyRelated {
 		tuplesetType := relatedType.GetType()
 
@@ -195,7 +199,7 @@ func parseTupleToUserset(graphBuilder *AuthorizationModelGraphBuilder, parentNod
 		nodeSource := graphBuilder.getOrAddNode(rewrittenNodeName, rewrittenNodeName, SpecificTypeAndRelation)
 		typeTuplesetRelation := fmt.Sprintf("%s#%s", typeDef.GetType(), tuplesetRelation)
 
-		if graphBuilder.hasEdge(nodeSource, parentNode, TTUEdge, typeTuplesetRelation) {
+		if _, seen := seenTuplesetTypes[tuplesetType]; seen {
 			// we don't need to do any condition update, only de-dup the edge. In case of TTU
 			// the direct relation will have the conditions
 			// for example, in the case of
@@ -208,8 +212,15 @@ func parseTupleToUserset(graphBuilder *AuthorizationModelGraphBuilder, parentNod
 			continue
 		}
 
+		seenTuplesetTypes[tuplesetType] = struct{}{}
+
 		// new edge from "xxx#admin" to "yyy#viewer" tuplesetRelation on "yyy#parent"
-		graphBuilder.upsertEdge(nodeSource, parentNode, TTUEdge, typeTuplesetRelation, relatedType.GetCondition())
+		var conditions []string
+		if relatedType.GetCondition() != "" {
+			conditions = []string{relatedType.GetCondition()}
+		}
+
+		graphBuilder.AddEdge(nodeSource, parentNode, TTUEdge, typeTuplesetRelation, conditions)
 	}
 }
 
